@@ -95,7 +95,16 @@ def check_case(case):
             return out
         if not _aligned(case, chars):
             return out                                           # dialect difference of `re` vs interegular: outside the aligned oracle
-        st, m = call(interegular_to_wfsa, pattern, charset="core" if core else set(chars))
+        cs_arg = "core" if core else set(chars)
+        st, m = call(interegular_to_wfsa, pattern, charset=cs_arg)
+        if st == "ok" and not core:
+            # "for any regular expression and any character set": the caller's set is an input, not scratch space - a second
+            # automaton built with the same set object must see the same character set (strengthened after seeded change C18-1)
+            out["n"] += 1
+            if cs_arg != set(chars):
+                viol(OB_LANG, "charset-argument-modified", None, sorted(cs_arg), sorted(chars),
+                     dict(note="interegular_to_wfsa changed the character set passed by the caller; later automata built with it read "
+                               "negated classes and '.' relative to the shrunken set"))
     if st != "ok":
         out["n"] += 1
         viol(OB_RAISE, "raised: " + m.split(":")[0], None, m, "an automaton")
